@@ -1603,6 +1603,30 @@ CLEANUP:
 	EG_RETURN (rval);
 }
 
+/* A bound that moves to infinity cannot keep a non-basic column "at" it: the
+ * stored basis would put the column at the value of the infinity encoding in
+ * the next solve.  Move such a column to its other bound (free if none). */
+static void repair_bound_status (
+	EGLPNUM_TYPENAME_QSdata * p,
+	int indx)
+{
+	EGLPNUM_TYPENAME_ILLlpdata *qslp = p->qslp;
+	int j, lofin, upfin;
+	char *st;
+
+	if (!p->basis || !p->basis->cstat || indx < 0 || indx >= qslp->nstruct)
+		return;
+	j = qslp->structmap[indx];
+	lofin = EGLPNUM_TYPENAME_EGlpNumIsNeqq (qslp->lower[j], EGLPNUM_TYPENAME_ILL_MINDOUBLE);
+	upfin = EGLPNUM_TYPENAME_EGlpNumIsNeqq (qslp->upper[j], EGLPNUM_TYPENAME_ILL_MAXDOUBLE);
+	st = &(p->basis->cstat[indx]);
+	if ((*st == QS_COL_BSTAT_UPPER && !upfin) || (*st == QS_COL_BSTAT_LOWER && !lofin))
+	{
+		*st = lofin ? QS_COL_BSTAT_LOWER : (upfin ? QS_COL_BSTAT_UPPER : QS_COL_BSTAT_FREE);
+		p->factorok = 0;						/* reload the basis from p->basis */
+	}
+}
+
 EGLPNUM_TYPENAME_QSLIB_INTERFACE int EGLPNUM_TYPENAME_QSchange_bounds (
 	EGLPNUM_TYPENAME_QSdata * p,
 	int num,
@@ -1619,6 +1643,12 @@ EGLPNUM_TYPENAME_QSLIB_INTERFACE int EGLPNUM_TYPENAME_QSchange_bounds (
 	CHECKRVALG (rval, CLEANUP);
 
 	free_cache (p);
+	{
+		int i;
+
+		for (i = 0; i < num; i++)
+			repair_bound_status (p, collist[i]);
+	}
 
 CLEANUP:
 
@@ -1640,6 +1670,7 @@ EGLPNUM_TYPENAME_QSLIB_INTERFACE int EGLPNUM_TYPENAME_QSchange_bound (
 	CHECKRVALG (rval, CLEANUP);
 
 	free_cache (p);
+	repair_bound_status (p, indx);
 
 CLEANUP:
 
